@@ -1,6 +1,17 @@
-//! C12 — sparse LDL' engine.
+//! C12 — the sparse LDL' engine (QDLDL): factors, solves and refactors correctly or reports errors.
+//!
+//! Unit chain (post-condition of one unit = pre-condition of the next):
+//!   check_structure -> _invperm -> permute_symmetric (+AtoPAPt) -> _etree -> _factor_inner -> _solve
+//! Sparsity patterns are enumerated (concrete), numeric values / permutations / signs are symbolic.
+//! Algebraic identities are decided over GF(13) (see fp.rs), regularisation logic over f64.
+use crate::fp::*;
+use crate::gen::*;
+use clarabel::algebra::*;
 use clarabel::qdldl::verif_hooks as q;
 use clarabel::qdldl::*;
+use num_traits::{Float, One, Zero};
+
+type F = F13;
 
 /// reference: is `p` a permutation of 0..n ?
 fn is_perm<const N: usize>(p: &[usize; N]) -> bool {
@@ -16,6 +27,15 @@ fn is_perm<const N: usize>(p: &[usize; N]) -> bool {
     true
 }
 
+fn any_perm<const N: usize>() -> [usize; N] {
+    let p: [usize; N] = kani::any();
+    kani::assume(is_perm(&p));
+    p
+}
+
+// ------------------------------------------------------------------------------------------
+// _invperm
+// ------------------------------------------------------------------------------------------
 fn invperm_n<const N: usize>() {
     let p: [usize; N] = kani::any();
     let r = q::invperm(&p);
@@ -40,4 +60,704 @@ fn invperm_n<const N: usize>() {
 #[kani::unwind(6)]
 pub fn c12_invperm_n4() {
     invperm_n::<4>();
+}
+
+#[kani::proof]
+#[kani::unwind(7)]
+pub fn c12_invperm_n5() {
+    invperm_n::<5>();
+}
+
+// ------------------------------------------------------------------------------------------
+// permute / ipermute (unchecked indexing)
+// ------------------------------------------------------------------------------------------
+#[kani::proof]
+#[kani::unwind(7)]
+pub fn c12_perm_roundtrip_n5() {
+    const N: usize = 5;
+    let p = any_perm::<N>();
+    let b: [i32; N] = kani::any();
+    let mut x = [0i32; N];
+    let mut y = [0i32; N];
+    q::permute(&mut x, &b, &p);
+    let mut i = 0;
+    while i < N {
+        assert!(x[i] == b[p[i]], "permute_gathers");
+        i += 1;
+    }
+    q::ipermute(&mut y, &x, &p);
+    let mut i = 0;
+    while i < N {
+        assert!(y[i] == b[i], "ipermute_inverts_permute");
+        i += 1;
+    }
+    kani::cover!(p[0] == 3 && p[4] == 0, "non-identity permutation");
+}
+
+// ------------------------------------------------------------------------------------------
+// check_structure
+// ------------------------------------------------------------------------------------------
+fn structure_n<const M: usize, const N: usize, const NNZ: usize>() {
+    let (colptr, rowval) = any_pattern::<M, N, NNZ>();
+    let A = CscMatrix::<f64> { m: M, n: N, colptr, rowval, nzval: vec![1.0; NNZ] };
+    let r = q::check_structure(&A);
+    let mut lower = false;
+    let mut k = 0;
+    while k < NNZ {
+        if A.rowval[k] > col_of(&A.colptr, k) {
+            lower = true;
+        }
+        k += 1;
+    }
+    let mut empty = false;
+    let mut j = 0;
+    while j < N {
+        if A.colptr[j] == A.colptr[j + 1] {
+            empty = true;
+        }
+        j += 1;
+    }
+    match r {
+        Err(QDLDLError::IncompatibleDimension) => assert!(M != N, "incompatible_dimension_iff_non_square"),
+        Err(QDLDLError::NotUpperTriangular) => assert!(M == N && lower, "not_upper_triangular_iff_entry_below_diagonal"),
+        Err(QDLDLError::EmptyColumn) => assert!(M == N && !lower && empty, "empty_column_iff_some_column_has_no_entry"),
+        Err(_) => assert!(false, "no_other_error_from_check_structure"),
+        Ok(()) => assert!(M == N && !lower && !empty, "ok_iff_square_upper_triangular_no_empty_column"),
+    }
+    kani::cover!(r.is_ok() || M != N, "accepted (square) / rejected (non square)");
+    kani::cover!(lower || M != N, "entry below the diagonal");
+    kani::cover!((empty && !lower) || M != N, "empty column");
+}
+
+#[kani::proof]
+#[kani::unwind(6)]
+pub fn c12_structure_3x3_nnz4() {
+    structure_n::<3, 3, 4>();
+}
+#[kani::proof]
+#[kani::unwind(6)]
+pub fn c12_structure_3x3_nnz3() {
+    structure_n::<3, 3, 3>();
+}
+#[kani::proof]
+#[kani::unwind(6)]
+pub fn c12_structure_3x2() {
+    structure_n::<3, 2, 3>();
+}
+
+// ------------------------------------------------------------------------------------------
+// permute_symmetric + AtoPAPt map
+// ------------------------------------------------------------------------------------------
+fn permute_map_n<const N: usize, const NNZ: usize>() {
+    // symbolic canonical upper-triangular pattern, symbolic field values, symbolic valid iperm
+    let (colptr, rowval) = any_pattern::<N, N, NNZ>();
+    let mut k = 0;
+    while k < NNZ {
+        kani::assume(rowval[k] <= col_of(&colptr, k));
+        k += 1;
+    }
+    let mut nzval = vec![F::zero(); NNZ];
+    let mut k = 0;
+    while k < NNZ {
+        nzval[k] = F::any();
+        k += 1;
+    }
+    let A = CscMatrix::<F> { m: N, n: N, colptr, rowval, nzval };
+    let iperm = any_perm::<N>();
+    let (Pm, map) = q::permute_symmetric(&A, &iperm);
+    assert!(Pm.m == N && Pm.n == N && Pm.colptr.len() == N + 1 && Pm.rowval.len() == NNZ && Pm.nzval.len() == NNZ, "P_dimensions");
+    assert!(Pm.colptr[0] == 0 && Pm.colptr[N] == NNZ, "P_colptr_ends");
+    let mut j = 0;
+    while j < N {
+        assert!(Pm.colptr[j] <= Pm.colptr[j + 1], "P_colptr_monotone");
+        j += 1;
+    }
+    assert!(map.len() == NNZ);
+    let mut used = [false; NNZ];
+    let mut k = 0;
+    while k < NNZ {
+        let t = map[k];
+        assert!(t < NNZ, "map_in_range");
+        assert!(!used[t], "map_is_injective");
+        used[t] = true;
+        let (r, c) = (A.rowval[k], col_of(&A.colptr, k));
+        let (pr, pc) = (iperm[r], iperm[c]);
+        let (lo, hi) = if pr <= pc { (pr, pc) } else { (pc, pr) };
+        assert!(Pm.rowval[t] == lo, "entry_lands_in_row_min(iperm)");
+        assert!(col_of(&Pm.colptr, t) == hi, "entry_lands_in_column_max(iperm)");
+        assert!(Pm.nzval[t] == A.nzval[k], "entry_value_carried");
+        k += 1;
+    }
+    kani::cover!(iperm[0] == N - 1 && A.rowval[NNZ - 1] == 0, "reversing permutation, off-diagonal entry");
+}
+
+#[kani::proof]
+#[kani::unwind(6)]
+pub fn c12_permute_map_n3_nnz4() {
+    permute_map_n::<3, 4>();
+}
+#[kani::proof]
+#[kani::unwind(7)]
+pub fn c12_permute_map_n3_nnz5() {
+    permute_map_n::<3, 5>();
+}
+#[kani::proof]
+#[kani::unwind(8)]
+pub fn c12_permute_map_n4_nnz6() {
+    permute_map_n::<4, 6>();
+}
+
+// ------------------------------------------------------------------------------------------
+// _etree + _factor_inner on enumerated patterns
+// ------------------------------------------------------------------------------------------
+
+/// upper-triangular pattern from bit masks: bit (i,j), i<j, of `off` in column-major order of the
+/// strict upper triangle; bit j of `diag` = diagonal entry present. Returns (colptr,rowval) — concrete.
+pub fn triu_pattern<const N: usize>(off: u32, diag: u32) -> (Vec<usize>, Vec<usize>) {
+    let mut colptr = vec![0usize; N + 1];
+    let mut rowval = Vec::new();
+    let mut bit = 0;
+    let mut j = 0;
+    while j < N {
+        let mut i = 0;
+        while i < j {
+            if (off >> bit) & 1 == 1 {
+                rowval.push(i);
+            }
+            bit += 1;
+            i += 1;
+        }
+        if (diag >> j) & 1 == 1 {
+            rowval.push(j);
+        }
+        colptr[j + 1] = rowval.len();
+        j += 1;
+    }
+    (colptr, rowval)
+}
+
+/// dense symmetric matrix of a triu CSC matrix
+fn dense_sym<const N: usize>(colptr: &[usize], rowval: &[usize], nzval: &[F]) -> [[F; N]; N] {
+    let mut a = [[F::zero(); N]; N];
+    let mut k = 0;
+    while k < rowval.len() {
+        let c = col_of(colptr, k);
+        let r = rowval[k];
+        a[r][c] = nzval[k];
+        a[c][r] = nzval[k];
+        k += 1;
+    }
+    a
+}
+
+/// reference symbolic factorisation: fill pattern of L by boolean elimination (lower[i][j], i>j)
+fn fill_pattern<const N: usize>(colptr: &[usize], rowval: &[usize]) -> [[bool; N]; N] {
+    let mut s = [[false; N]; N];
+    let mut k = 0;
+    while k < rowval.len() {
+        let c = col_of(colptr, k);
+        let r = rowval[k];
+        if r != c {
+            s[c][r] = true; // lower triangle: row c > col r
+        }
+        k += 1;
+    }
+    let mut p = 0;
+    while p < N {
+        let mut i = p + 1;
+        while i < N {
+            if s[i][p] {
+                let mut j = p + 1;
+                while j < i {
+                    if s[j][p] {
+                        s[i][j] = true;
+                    }
+                    j += 1;
+                }
+            }
+            i += 1;
+        }
+        p += 1;
+    }
+    s
+}
+
+pub struct Factor<const N: usize> {
+    pub res: Result<usize, QDLDLError>,
+    pub Lp: Vec<usize>,
+    pub Li: Vec<usize>,
+    pub Lx: Vec<F>,
+    pub D: Vec<F>,
+    pub Dinv: Vec<F>,
+    pub etree: Vec<usize>,
+    pub Lnz: Vec<usize>,
+    pub bwork: Vec<bool>,
+    pub iwork: Vec<usize>,
+    pub fwork: Vec<F>,
+    pub regcount: usize,
+}
+
+/// run the real _etree and _factor_inner (numeric, no regularisation) on (pattern, values)
+fn factor<const N: usize>(colptr: &[usize], rowval: &[usize], nzval: &[F]) -> Factor<N> {
+    let mut iwork = vec![0usize; 3 * N];
+    let mut Lnz = vec![0usize; N];
+    let mut etree = vec![0usize; N];
+    let r = q::etree(N, colptr, rowval, &mut iwork, &mut Lnz, &mut etree);
+    assert!(r.is_ok());
+    let mut sum = 0;
+    let mut j = 0;
+    while j < N {
+        sum += Lnz[j];
+        j += 1;
+    }
+    let mut f = Factor::<N> {
+        res: Ok(0),
+        Lp: vec![0usize; N + 1],
+        Li: vec![0usize; sum],
+        Lx: vec![F::zero(); sum],
+        D: vec![F::zero(); N],
+        Dinv: vec![F::zero(); N],
+        etree,
+        Lnz,
+        bwork: vec![false; N],
+        iwork,
+        fwork: vec![F::zero(); N],
+        regcount: 0,
+    };
+    refactor_in_place(&mut f, colptr, rowval, nzval);
+    f
+}
+
+fn refactor_in_place<const N: usize>(f: &mut Factor<N>, colptr: &[usize], rowval: &[usize], nzval: &[F]) {
+    let dsigns = vec![1i8; N];
+    f.res = q::factor_inner(
+        N, colptr, rowval, nzval, &mut f.Lp, &mut f.Li, &mut f.Lx, &mut f.D, &mut f.Dinv, &f.Lnz, &f.etree,
+        &mut f.bwork, &mut f.iwork, &mut f.fwork, false, &dsigns, false, F::zero(), F::zero(), &mut f.regcount,
+    );
+}
+
+/// dense unit-lower L from the CSC factor, checking its structural invariants on the way
+fn dense_L<const N: usize>(f: &Factor<N>) -> [[F; N]; N] {
+    let mut l = [[F::zero(); N]; N];
+    let mut seen = [[false; N]; N];
+    assert!(f.Lp[0] == 0 && f.Lp[N] == f.Li.len(), "Lp_ends");
+    let mut j = 0;
+    while j < N {
+        l[j][j] = F::one();
+        assert!(f.Lp[j] <= f.Lp[j + 1], "Lp_monotone");
+        assert!(f.Lp[j + 1] - f.Lp[j] == f.Lnz[j], "Lp_is_cumsum_of_Lnz");
+        let mut k = f.Lp[j];
+        while k < f.Lp[j + 1] {
+            let i = f.Li[k];
+            assert!(i < N && i > j, "L_strictly_lower_rows_in_range");
+            assert!(!seen[i][j], "L_no_duplicate_entries");
+            seen[i][j] = true;
+            l[i][j] = f.Lx[k];
+            k += 1;
+        }
+        j += 1;
+    }
+    l
+}
+
+fn any_values(nnz: usize) -> Vec<F> {
+    let mut v = vec![F::zero(); nnz];
+    let mut k = 0;
+    while k < nnz {
+        v[k] = F::any();
+        k += 1;
+    }
+    v
+}
+
+/// leading principal minors m_1..m_N of a dense symmetric matrix, N <= 4 (cofactor expansions in the field)
+fn leading_minors<const N: usize>(a: &[[F; N]; N]) -> [F; N] {
+    let mut m = [F::zero(); N];
+    m[0] = a[0][0];
+    if N > 1 {
+        m[1] = a[0][0] * a[1][1] - a[0][1] * a[1][0];
+    }
+    if N > 2 {
+        m[2] = det3(a, [0, 1, 2], [0, 1, 2]);
+    }
+    if N > 3 {
+        // expansion along the last row
+        let mut d = F::zero();
+        let mut c = 0;
+        while c < 4 {
+            let cols = match c {
+                0 => [1, 2, 3],
+                1 => [0, 2, 3],
+                2 => [0, 1, 3],
+                _ => [0, 1, 2],
+            };
+            let term = a[3][c] * det3(a, [0, 1, 2], cols);
+            // sign (-1)^(3+c)
+            if (3 + c) % 2 == 0 {
+                d = d + term;
+            } else {
+                d = d - term;
+            }
+            c += 1;
+        }
+        m[3] = d;
+    }
+    m
+}
+
+fn det3<const N: usize>(a: &[[F; N]; N], r: [usize; 3], c: [usize; 3]) -> F {
+    a[r[0]][c[0]] * (a[r[1]][c[1]] * a[r[2]][c[2]] - a[r[1]][c[2]] * a[r[2]][c[1]])
+        - a[r[0]][c[1]] * (a[r[1]][c[0]] * a[r[2]][c[2]] - a[r[1]][c[2]] * a[r[2]][c[0]])
+        + a[r[0]][c[2]] * (a[r[1]][c[0]] * a[r[2]][c[1]] - a[r[1]][c[1]] * a[r[2]][c[0]])
+}
+
+/// C12.ldl — for one concrete pattern and *all* field values:
+///   Ok  <=> every leading principal minor is nonzero, and then  L D L' = A, Dinv*D = 1, L has the reference fill pattern
+///   Err(ZeroPivot) otherwise
+pub fn ldl_pattern<const N: usize>(off: u32, diag: u32) {
+    let (colptr, rowval) = triu_pattern::<N>(off, diag);
+    let nnz = rowval.len();
+    let nzval = any_values(nnz);
+    let a = dense_sym::<N>(&colptr, &rowval, &nzval);
+    let f = factor::<N>(&colptr, &rowval, &nzval);
+    let minors = leading_minors(&a);
+    let mut all_nonzero = true;
+    let mut i = 0;
+    while i < N {
+        if minors[i].0 == 0 {
+            all_nonzero = false;
+        }
+        i += 1;
+    }
+    match f.res {
+        Err(QDLDLError::ZeroPivot) => assert!(!all_nonzero, "zero_pivot_reported_only_if_a_leading_minor_vanishes"),
+        Err(_) => assert!(false, "no_other_error"),
+        Ok(npos) => {
+            assert!(all_nonzero, "ok_only_if_all_pivots_nonzero");
+            let l = dense_L(&f);
+            // structure = reference symbolic factorisation
+            let s = fill_pattern::<N>(&colptr, &rowval);
+            let mut i = 0;
+            while i < N {
+                let mut j = 0;
+                while j < i {
+                    let mut present = false;
+                    let mut k = f.Lp[j];
+                    while k < f.Lp[j + 1] {
+                        if f.Li[k] == i {
+                            present = true;
+                        }
+                        k += 1;
+                    }
+                    assert!(present == s[i][j], "L_pattern_is_the_fill_pattern");
+                    j += 1;
+                }
+                i += 1;
+            }
+            // L D L' == A, entry by entry
+            let mut i = 0;
+            while i < N {
+                let mut j = 0;
+                while j <= i {
+                    let mut acc = F::zero();
+                    let mut k = 0;
+                    while k <= j {
+                        acc = acc + l[i][k] * f.D[k] * l[j][k];
+                        k += 1;
+                    }
+                    assert!(acc == a[i][j], "LDLt_equals_A");
+                    j += 1;
+                }
+                assert!(f.D[i] * f.Dinv[i] == F::one(), "Dinv_is_inverse_of_D");
+                // pivots are ratios of leading minors
+                if i == 0 {
+                    assert!(f.D[0] == minors[0], "first_pivot");
+                } else {
+                    assert!(f.D[i] * minors[i - 1] == minors[i], "pivot_is_ratio_of_leading_minors");
+                }
+                i += 1;
+            }
+            // positive_inertia counts D[k] > 0; in GF(p) every nonzero representative is > 0
+            assert!(npos == N, "positive_count_counts_nonzero_representatives");
+        }
+    }
+    kani::cover!(f.res.is_ok(), "factorisation succeeds");
+    kani::cover!(f.res.is_err(), "zero pivot reached");
+}
+
+macro_rules! ldl3 {
+    ($($name:ident $off:expr, $diag:expr;)*) => {$(
+        #[kani::proof]
+        #[kani::unwind(11)]
+        pub fn $name() { ldl_pattern::<3>($off, $diag); }
+    )*};
+}
+ldl3! {
+    c12_ldl3_p0 0, 7;
+    c12_ldl3_p1 1, 7;
+    c12_ldl3_p2 2, 7;
+    c12_ldl3_p3 3, 7;
+    c12_ldl3_p4 4, 7;
+    c12_ldl3_p5 5, 7;
+    c12_ldl3_p6 6, 7;
+    c12_ldl3_p7 7, 7;
+    c12_ldl3_p7_nodiag1 7, 5;
+    c12_ldl3_p5_nodiag2 5, 3;
+}
+
+macro_rules! ldl4 {
+    ($($name:ident $off:expr;)*) => {$(
+        #[kani::proof]
+        #[kani::unwind(14)]
+        pub fn $name() { ldl_pattern::<4>($off, 15); }
+    )*};
+}
+ldl4! {
+    c12_ldl4_p63 63;
+    c12_ldl4_p11 11;
+    c12_ldl4_p37 37;
+    c12_ldl4_p56 56;
+    c12_ldl4_p25 25;
+    c12_ldl4_p42 42;
+}
+
+// ------------------------------------------------------------------------------------------
+// refactor on a used workspace == fresh factorisation
+// ------------------------------------------------------------------------------------------
+fn refactor_pattern<const N: usize>(off: u32) {
+    let (colptr, rowval) = triu_pattern::<N>(off, (1 << N) - 1);
+    let nnz = rowval.len();
+    let v1 = any_values(nnz);
+    let v2 = any_values(nnz);
+    // (a) factor v1 (may succeed or stop at a zero pivot), then refactor v2 on the same workspace
+    let mut f = factor::<N>(&colptr, &rowval, &v1);
+    let first_failed = f.res.is_err();
+    refactor_in_place(&mut f, &colptr, &rowval, &v2);
+    // (b) fresh factorisation of v2
+    let g = factor::<N>(&colptr, &rowval, &v2);
+    assert!(f.res.is_ok() == g.res.is_ok(), "refactor_verdict_equals_fresh_verdict");
+    if g.res.is_ok() {
+        let mut k = 0;
+        while k <= N {
+            assert!(f.Lp[k] == g.Lp[k], "refactor_structure_equals_fresh");
+            k += 1;
+        }
+        let mut k = 0;
+        while k < g.Li.len() {
+            assert!(f.Li[k] == g.Li[k], "refactor_structure_equals_fresh");
+            k += 1;
+        }
+        let mut k = 0;
+        while k < g.Lx.len() {
+            assert!(f.Lx[k] == g.Lx[k], "refactor_L_equals_fresh_L");
+            k += 1;
+        }
+        let mut i = 0;
+        while i < N {
+            assert!(f.D[i] == g.D[i] && f.Dinv[i] == g.Dinv[i], "refactor_D_equals_fresh_D");
+            i += 1;
+        }
+    }
+    kani::cover!(first_failed && g.res.is_ok(), "first factorisation hit a zero pivot, refactor succeeds");
+    kani::cover!(!first_failed && g.res.is_ok(), "both succeed");
+}
+
+#[kani::proof]
+#[kani::unwind(11)]
+pub fn c12_refactor3_dense() {
+    refactor_pattern::<3>(7);
+}
+#[kani::proof]
+#[kani::unwind(11)]
+pub fn c12_refactor3_arrow() {
+    refactor_pattern::<3>(6);
+}
+
+// ------------------------------------------------------------------------------------------
+// triangular solves (unchecked indexing)
+// ------------------------------------------------------------------------------------------
+/// strictly-lower pattern of L from a bit mask over (i>j) in column-major order
+fn lower_pattern<const N: usize>(mask: u32) -> (Vec<usize>, Vec<usize>) {
+    let mut lp = vec![0usize; N + 1];
+    let mut li = Vec::new();
+    let mut bit = 0;
+    let mut j = 0;
+    while j < N {
+        let mut i = j + 1;
+        while i < N {
+            if (mask >> bit) & 1 == 1 {
+                li.push(i);
+            }
+            bit += 1;
+            i += 1;
+        }
+        lp[j + 1] = li.len();
+        j += 1;
+    }
+    (lp, li)
+}
+
+fn solve_pattern<const N: usize>(mask: u32) {
+    let (lp, li) = lower_pattern::<N>(mask);
+    let lx = any_values(li.len());
+    let mut dinv = vec![F::zero(); N];
+    let mut i = 0;
+    while i < N {
+        dinv[i] = F::any_nonzero();
+        i += 1;
+    }
+    let b0 = any_values(N);
+    let mut x = b0.clone();
+    q::solve(&lp, &li, &lx, &dinv, &mut x);
+    // dense L (unit diagonal)
+    let mut l = [[F::zero(); N]; N];
+    let mut j = 0;
+    while j < N {
+        l[j][j] = F::one();
+        let mut k = lp[j];
+        while k < lp[j + 1] {
+            l[li[k]][j] = lx[k];
+            k += 1;
+        }
+        j += 1;
+    }
+    // w = L' x ;  v = D w  (D = 1/Dinv: v*dinv = w) ;  L v = b
+    let mut w = [F::zero(); N];
+    let mut i = 0;
+    while i < N {
+        let mut acc = F::zero();
+        let mut k = i;
+        while k < N {
+            acc = acc + l[k][i] * x[k];
+            k += 1;
+        }
+        w[i] = acc;
+        i += 1;
+    }
+    let mut v = [F::zero(); N];
+    let mut i = 0;
+    while i < N {
+        v[i] = w[i] * Float::recip(dinv[i]);
+        i += 1;
+    }
+    let mut i = 0;
+    while i < N {
+        let mut acc = F::zero();
+        let mut k = 0;
+        while k <= i {
+            acc = acc + l[i][k] * v[k];
+            k += 1;
+        }
+        assert!(acc == b0[i], "L_D_Lt_x_equals_b");
+        i += 1;
+    }
+    // safe and unsafe substitution agree
+    let mut y1 = b0.clone();
+    let mut y2 = b0.clone();
+    q::lsolve_safe(&lp, &li, &lx, &mut y1);
+    q::ltsolve_safe(&lp, &li, &lx, &mut y1);
+    q::lsolve_safe(&lp, &li, &lx, &mut y2);
+    q::ltsolve_unsafe(&lp, &li, &lx, &mut y2);
+    let mut i = 0;
+    while i < N {
+        assert!(y1[i] == y2[i], "safe_and_unchecked_substitution_agree");
+        i += 1;
+    }
+    kani::cover!(x[0].0 == 3 && b0[N - 1].0 == 5, "nontrivial system");
+}
+
+#[kani::proof]
+#[kani::unwind(8)]
+pub fn c12_solve3_dense() {
+    solve_pattern::<3>(7);
+}
+#[kani::proof]
+#[kani::unwind(8)]
+pub fn c12_solve3_sparse() {
+    solve_pattern::<3>(5);
+}
+#[kani::proof]
+#[kani::unwind(10)]
+pub fn c12_solve4_dense() {
+    solve_pattern::<4>(63);
+}
+#[kani::proof]
+#[kani::unwind(10)]
+pub fn c12_solve4_sparse() {
+    solve_pattern::<4>(0b101001);
+}
+
+// ------------------------------------------------------------------------------------------
+// regularisation / inertia logic, f64, every bit pattern (diagonal matrices: no products)
+// ------------------------------------------------------------------------------------------
+fn regularize_signs(signs: [i8; 3]) {
+    const N: usize = 3;
+    let colptr = [0usize, 1, 2, 3];
+    let rowval = [0usize, 1, 2];
+    let ax: [f64; N] = kani::any();
+    let eps: f64 = kani::any();
+    let delta: f64 = kani::any();
+    let enable: bool = kani::any();
+    let mut iwork = vec![0usize; 3 * N];
+    let mut Lnz = vec![0usize; N];
+    let mut etree = vec![0usize; N];
+    let _ = q::etree(N, &colptr, &rowval, &mut iwork, &mut Lnz, &mut etree);
+    assert!(Lnz[0] == 0 && Lnz[1] == 0 && Lnz[2] == 0);
+    let mut Lp = vec![0usize; N + 1];
+    let mut Li: Vec<usize> = vec![];
+    let mut Lx: Vec<f64> = vec![];
+    let mut D = vec![0f64; N];
+    let mut Dinv = vec![0f64; N];
+    let mut bwork = vec![false; N];
+    let mut fwork = vec![0f64; N];
+    let mut count = 7usize;
+    let r = q::factor_inner(
+        N, &colptr, &rowval, &ax, &mut Lp, &mut Li, &mut Lx, &mut D, &mut Dinv, &Lnz, &etree, &mut bwork, &mut iwork,
+        &mut fwork, false, &signs, enable, eps, delta, &mut count,
+    );
+    // reference
+    let mut expect_count = 0;
+    let mut expect_pos = 0;
+    let mut zero_at = N;
+    let mut k = 0;
+    while k < N {
+        let s = signs[k] as f64;
+        let mut d = ax[k];
+        if enable && d * s < eps {
+            d = delta * s;
+            expect_count += 1;
+        }
+        if d == 0.0 {
+            zero_at = k;
+            break;
+        }
+        if d > 0.0 {
+            expect_pos += 1;
+        }
+        assert!(r.is_err() || same_bits(D[k], d), "pivot_perturbed_iff_signed_value_below_threshold");
+        k += 1;
+    }
+    match r {
+        Ok(npos) => {
+            assert!(zero_at == N, "ok_only_without_zero_pivot");
+            assert!(npos == expect_pos, "positive_inertia_counts_positive_pivots");
+            assert!(count == expect_count, "regularize_count_counts_perturbed_pivots");
+        }
+        Err(QDLDLError::ZeroPivot) => assert!(zero_at < N, "zero_pivot_error_iff_some_pivot_is_zero"),
+        Err(_) => assert!(false),
+    }
+    kani::cover!(r.is_ok() && count == 2, "two pivots perturbed");
+    kani::cover!(r.is_ok() && count == 0 && enable, "no pivot perturbed with regularisation on");
+    kani::cover!(r.is_err(), "zero pivot");
+}
+
+#[kani::proof]
+#[kani::unwind(11)]
+pub fn c12_regularize_signs_ppm() {
+    regularize_signs([1, 1, -1]);
+}
+#[kani::proof]
+#[kani::unwind(11)]
+pub fn c12_regularize_signs_mpm() {
+    regularize_signs([-1, 1, -1]);
 }
